@@ -323,6 +323,19 @@ class Discharger:
             return None
         if kind == "BoundsCheck":
             c = const_int(m["b"])
+            # D12: a table with a row per variant, indexed by the variant (`TABLE[*self as usize]`): the length is a constant and
+            # the index is the discriminant of an enum all of whose discriminant values are below it
+            n = const_int(m["a"])
+            ipl = place_of(m["b"])
+            if n is not None and ipl is not None and not ipl["p"]:
+                ds = fn.defs().get(ipl["l"], [])
+                if len(ds) == 1 and ds[0][0] == "stmt" and ds[0][3].get("k") == "cast" and ds[0][3].get("ck") == "IntToInt":
+                    src = place_of(ds[0][3]["a"])
+                    d2 = fn.defs().get(src["l"], []) if src is not None and not src["p"] else []
+                    if len(d2) == 1 and d2[0][0] == "stmt" and d2[0][3].get("k") == "discr" and d2[0][3].get("variants"):
+                        vals = [v[0] for v in d2[0][3]["variants"]]
+                        if all(isinstance(v, int) and 0 <= v < n for v in vals):
+                            return ("D12", "index is the discriminant of %s (values 0..%d) into a table of %d rows" % (d2[0][3].get("enum"), max(vals), n))
             return self.length_guarded(s, index=True)
         return None
 
